@@ -20,6 +20,7 @@ EXPLANATION_ADDED2 = " (R9) handshake_timeout is armed around the whole connecti
 EXPLANATION = EXPLANATION + " Added while testing against seeded changes: " + EXPLANATION_ADDED + EXPLANATION_ADDED2
 EXPLANATION = EXPLANATION + ' Round 10: R7 also requires advance to multiply the stored delay by `mult` and reset to restore `initial` and count 0.'
 EXPLANATION = EXPLANATION + ' Rounds 14-15: (R12) the timer raced against a stream request is the configured channel_timeout itself.'
+EXPLANATION = EXPLANATION + ' Rounds 16-17: (R13) the wait before a retry is the value returned by Backoff::advance() itself.'
 ASSUMPTIONS = ["Duration arithmetic of Backoff::advance: only the clamping structure is decided (R7: stored state and returned delay are both bounded by max); the numeric delay sequence is left to the repository's unit tests"]
 NOT_DECIDED = "the delay values and the timing of attempts"
 QUICK_CONFIGS = ["default"]
